@@ -15,6 +15,7 @@ RULE = ("40% grammar-generated histories with periodic save ticks and stop/resta
         "threaded/asyncio x plain/MQTT; 80% with persistence (half JSON, half pickle; restarts only there). The monitor "
         "watches every sent or withheld id response over the whole history incl. restarts. "
         "non-trivial = distinct history with at least one id response")
+RULE += ' MONITORS ONLY: harness/impl/slowsave.py - an id request answered while a scheduled save is still being written in its own thread, stop(), restart (real threads, 12 variants).'
 ASSUMPTIONS = ["a clean stop and restart = stop(), a new gateway object with the same configuration, start_persistence() "
                "(threading.Timer replaced by an inert fake; asyncio flavour: load + one save inline)",
                "the text demands silence when no id can be allocated; it does not demand an answer whenever one could be "
